@@ -288,6 +288,35 @@ fn history(start: &str, nops: usize, rng: &mut Rng, rep: &mut Report, batch: &mu
                 rep.oracle("removed-observable", "get", &case.script(), &format!("get({i}) succeeded"));
             }
         }
+        // ... through ANY query that takes a node id: a removed id (and an id that was never handed out) is refused by every
+        // traversal, listing, path, ancestor and distance query — alone and paired with a live node, in either position
+        let live: Option<usize> = slots.iter().position(|s| !s.deleted);
+        let mut dead: Vec<usize> = slots.iter().enumerate().filter(|(_, s)| s.deleted).map(|(i, _)| i).collect();
+        dead.truncate(6);
+        dead.push(slots.len());
+        dead.push(slots.len() + 7);
+        let t = &st.tree;
+        for &x in dead.iter() {
+            let mut seen: Vec<&'static str> = vec![];
+            if t.preorder(&x).is_ok() { seen.push("preorder"); }
+            if t.postorder(&x).is_ok() { seen.push("postorder"); }
+            if t.levelorder(&x).is_ok() { seen.push("levelorder"); }
+            if t.inorder(&x).is_ok() { seen.push("inorder"); }
+            if t.get_subtree(&x).is_ok() { seen.push("get_subtree"); }
+            if t.get_descendants(&x).is_ok() { seen.push("get_descendants"); }
+            if t.get_subtree_leaves(&x).is_ok() { seen.push("get_subtree_leaves"); }
+            if t.get_path_from_root(&x).is_ok() { seen.push("get_path_from_root"); }
+            if t.get_common_ancestor(&x, &x).is_ok() { seen.push("get_common_ancestor(x,x)"); }
+            if t.get_distance(&x, &x).is_ok() { seen.push("get_distance(x,x)"); }
+            if let Some(l) = live {
+                if t.get_common_ancestor(&x, &l).is_ok() || t.get_common_ancestor(&l, &x).is_ok() { seen.push("get_common_ancestor-with-a-live-node"); }
+                if t.get_distance(&x, &l).is_ok() || t.get_distance(&l, &x).is_ok() { seen.push("get_distance-with-a-live-node"); }
+            }
+            rep.count("dead_ids_queried");
+            for q in seen {
+                rep.oracle("removed-observable", q, &case.script(), &format!("{q} accepted the id {x} ({})", if x < slots.len() { "a removed node" } else { "never handed out" }));
+            }
+        }
     }
     rep.case(&case.script(), edits >= 1 && queried >= 1);
     batch.push(case);
